@@ -83,6 +83,8 @@ export function watchLoopLeg(outDir, N, root) {
       const style = Object.fromEntries(files.map((f) => [f, rng.below(5)]));
       const abs = (f) => path.join(dir, f);
       const version = {};
+      const coarse = rng.chance(1, 3);
+      let tick = 0;
       const put = (f) => {
         version[f] = (version[f] || 0) + 1;
         fs.mkdirSync(path.dirname(abs(f)), { recursive: true });
@@ -91,6 +93,10 @@ export function watchLoopLeg(outDir, N, root) {
         else if (style[f] === 2) text = "\ufeff" + text;
         else if (style[f] === 3) text = text.replace(/;\n/g, ";  \t\n") + "\n\n";
         fs.writeFileSync(abs(f), text);
+        // a file system with coarse time stamps, or a tool that restores them (rsync -t, cp -p):
+        // saves with other text and the modification time of the save before
+        if (coarse) fs.utimesSync(abs(f), 1700000000 + Math.floor(tick / 4), 1700000000 + Math.floor(tick / 4));
+        tick++;
       };
       for (const f of files) put(f);
       fs.writeFileSync(abs("bff.json"), JSON.stringify({ parser: "entry.ts", outputDir: "gen", module: rng.pick(["esm", "cjs", undefined]) }));
